@@ -19,6 +19,16 @@ func TestVerifC05Mux(t *testing.T) {
 	rapid.Check(t, func(rt *rapid.T) {
 		srv := vfGenServer(rt, vfGenOpts{IPFilters: true, IPPool: vfIPPool})
 		srv.CacheSize = rapid.SampledFrom([]int{0, 1, 8}).Draw(rt, "cache")
+		// by construction, in a quarter of the cases: the first generation's server-level filter blocks
+		// exactly one of the clients, and the reload in the middle drops that filter (rules and cache size
+		// stay): what the old generation refused must be served afterwards, cached or not
+		dropSrvFilter := rapid.IntRange(0, 3).Draw(rt, "dropsrvfilter") == 0
+		if dropSrvFilter {
+			srv.IPF = &vfIPF{Block: []string{rapid.SampledFrom([]string{"10.0.0.1", "10.0.0.2", "8.8.8.8", "2001:db8::1", "10.0.1.1"}).Draw(rt, "dropsrvfilter.ip")}}
+			if srv.CacheSize == 0 {
+				srv.CacheSize = 8
+			}
+		}
 		y := srv.YAML()
 		mapper := &vfMapper{live: vfLive}
 		m, err := vfNewMux(y, mapper)
@@ -30,7 +40,12 @@ func TestVerifC05Mux(t *testing.T) {
 		// level (the statement holds "whatever requests preceded it", also across a reload)
 		reloadAt := -1
 		var srv2 vfServer
-		if rapid.IntRange(0, 2).Draw(rt, "reload") == 0 {
+		if dropSrvFilter {
+			reloadAt = rapid.IntRange(1, len(seq)-1).Draw(rt, "reloadAt")
+			srv2 = srv
+			srv2.IPF = nil
+			vf.Class("sequence-with-reload", "reload-drops-a-server-filter-that-blocked-one-client")
+		} else if rapid.IntRange(0, 2).Draw(rt, "reload") == 0 {
 			reloadAt = rapid.IntRange(1, len(seq)-1).Draw(rt, "reloadAt")
 			srv2 = srv
 			srv2.Rules = make([]vfRule, len(srv.Rules))
